@@ -316,6 +316,56 @@ def oracle_files(ck, rng):
         shutil.rmtree(d, ignore_errors=True)
 
 
+def oracle_save_after_history(ck, rng):
+    """what is written is the molecules as they are now: views taken earlier (data frames, heads, filters, earlier saves) and in-place edits
+    in between (rotate / translate with copy=False, a new feature table, append) must not show in the saved table"""
+    import tempfile
+    import polars as pl
+    from scipy.spatial.transform import Rotation
+    from acryo import Molecules
+    n_it = 6 if ck.tier == "quick" else 40
+    with tempfile.TemporaryDirectory() as td:
+        for it in range(n_it):
+            n = int(rng.integers(2, 7))
+            mol = Molecules(rng.uniform(0, 50, size=(n, 3)), Rotation.random(n, random_state=int(rng.integers(0, 2**31))),
+                            features={"k": [int(x) for x in rng.integers(0, 5, size=n)]})
+            history = []
+            for step in range(int(rng.integers(2, 5))):
+                view = int(rng.integers(0, 5))
+                history.append(["to_dataframe", "head", "filter", "to_parquet", "sort"][view])
+                if view == 0: mol.to_dataframe()
+                elif view == 1: mol.head(1)
+                elif view == 2: mol.filter(pl.col("k") >= 0)
+                elif view == 3: mol.to_parquet(os.path.join(td, f"early{it}.parquet"))
+                else: mol.sort("k")
+                edit = int(rng.integers(0, 4))
+                history.append(["rotate_by(copy=False)", "translate(copy=False)", "features=", "rotate_by_rotvec_internal(copy=False)"][edit])
+                if edit == 0: mol.rotate_by(Rotation.random(random_state=int(rng.integers(0, 2**31))), copy=False)
+                elif edit == 1: mol.translate(rng.uniform(-3, 3, size=3), copy=False)
+                elif edit == 2: mol.features = mol.features.with_columns((pl.col("k") + 1).alias("k"))
+                else: mol.rotate_by_rotvec_internal(rng.uniform(-1, 1, size=3), copy=False)
+            now_pos, now_mat, now_k = mol.pos.copy(), mol.matrix().copy(), mol.features["k"].to_list()
+            for ext in ("parquet", "csv", "frame"):
+                ck.oracle_count("save_after_history", 1, 1)
+                try:
+                    if ext == "frame":
+                        back = Molecules.from_dataframe(mol.to_dataframe())
+                    else:
+                        path = os.path.join(td, f"late{it}.{ext}")
+                        mol.to_file(path)
+                        back = Molecules.from_file(path)
+                    bad = None
+                    if not np.allclose(back.pos, now_pos, atol=1e-3): bad = f"positions differ by {float(np.abs(back.pos - now_pos).max()):.3g}"
+                    elif not np.allclose(back.matrix(), now_mat, atol=1e-3): bad = f"orientations differ: rotation matrices off by {float(np.abs(back.matrix() - now_mat).max()):.3g}"
+                    elif back.features["k"].to_list() != now_k: bad = "feature column differs"
+                except Exception as e:  # noqa
+                    bad = f"raised {type(e).__name__}: {e}"
+                if bad:
+                    ck.violation(what=f"after the history {history} the table saved as {ext} and reloaded is not the current molecules: {bad}",
+                                 inp={"history": history, "format": ext, "n": n, "seed": ck.seed, "iteration": it},
+                                 key={"site": "save-after-history", "format": ext, "symptom": bad.split(" ")[0]}, oracle="save_after_history")
+
+
 def run(ck: common.Check):
     ck.design_ref = "DESIGN.md §6 C13"
     ck.trusted_base = TB
@@ -330,6 +380,7 @@ def run(ck: common.Check):
     corr_dispatch(ck, rng)
     corr_csv_precision(ck, rng)
     oracle_files(ck, rng)
+    oracle_save_after_history(ck, np.random.default_rng(ck.seed + 1313))
 
 
 def replay(data):
